@@ -61,10 +61,18 @@ CatDmls8 ==
 CatProbes8 == <<"SELECT * FROM t8", "SELECT * FROM zz", "SELECT a FROM t8 WHERE a = 1", "INSERT INTO t8 (a) VALUES (1)", "UPDATE t8 SET a = 2",
                 "DELETE FROM t8 WHERE a = 2", "CREATE TABLE t9 (a INT)", "INSERT INTO t9 VALUES (1)", "SELECT * FROM t9", "INSERT INTO zz VALUES (1)",
                 "SELECT * FROM sys_pages", "SELECT * FROM sys_schema">>
+\* degenerate shapes the parser accepts: a table without columns (rows without values), joined to an ordinary one;
+\* an INSERT without any row.  One session, in this order.
+Degenerate8 == <<"CREATE TABLE v ()", "INSERT INTO v VALUES (), ()", "SELECT * FROM v", "SELECT * FROM t8 JOIN v ON 1 = 1", "SELECT g FROM t8 JOIN v ON 1 = 1",
+                 "SELECT c, g FROM v JOIN t8 ON 1 = 1", "SELECT g FROM t8 LEFT JOIN v ON 1 = 1", "SELECT g FROM v RIGHT JOIN t8 ON 1 = 1",
+                 "SELECT count(g) FROM t8 JOIN v ON 1 = 1", "SELECT s, avg(g) FROM t8 JOIN v ON 1 = 1 GROUP BY s", "SELECT g FROM t8 JOIN v ON 1 = 1 WHERE a = 1 ORDER BY g",
+                 "SELECT count(*) FROM v", "UPDATE v SET a = 1", "DELETE FROM v", "INSERT INTO v VALUES ()", "SELECT * FROM v JOIN v w ON 1 = 1",
+                 "INSERT INTO t8 VALUES", "INSERT INTO t8 (a, s) VALUES", "INSERT INTO t8 () VALUES", "INSERT INTO nosuch VALUES", "INSERT INTO v VALUES",
+                 "SELECT * FROM t8">>
 \* LIMIT / OFFSET values incl. the largest integer the parser accepts (code -2; TLC integers are 32 bit)
 LimOffs8 == LimOffs \cup {[limit |-> -2, offset |-> o] : o \in {-1, 0, 1, 5}} \cup {[limit |-> l, offset |-> -2] : l \in {-1, 1}}
 
 ASSUME /\ Out("tables8", Tables8) /\ Out("wheres8", Wheres8) /\ Out("lists8", Lists8) /\ Out("orders8", Orders8)
        /\ Out("groups8", Groups8) /\ Out("froms8", Froms8) /\ Out("dmls8", Dmls8) /\ Out("limoffs8", LimOffs8)
-       /\ Out("catdmls8", CatDmls8) /\ Out("catprobes8", {CatProbes8})
+       /\ Out("catdmls8", CatDmls8) /\ Out("catprobes8", {CatProbes8}) /\ Out("degenerate8", {Degenerate8})
 =============================================================================
